@@ -6,7 +6,10 @@ blocking Enqueue and finds loss for the implementation's DropWhenFull; the loss-
 computed by TLC (burst of K frames with an idle reader: holds for K = 1 only).  Binding: a simulated AGWPE TNC on loopback
 TCP (own 36-byte header lexer) and schedules in child processes: outbound writes (ports 0..3, digipeaters, refusals),
 inbound D frames with TCP segmentation (mid-header, mid-data, byte-wise, coalesced), reader buffer sizes 1..4096,
-foreign callsigns/ports/kinds interleaved, the accept path, bursts, malformed frames.  AgwpePropsTrace.tla judges.
+foreign callsigns/ports/kinds interleaved, the accept path, bursts, malformed frames.  AgwpePropsTrace.tla judges the
+boundary events; AgwpeTrace.tla validates the library's own debug log (frames read, frames dropped) plus the application's
+Read calls of every inbound schedule against the pipeline of Agwpe.tla with inferred silent steps: a loss counts as the
+known drop-when-full finding only if it is explained by exactly the logged drops.
 """
 import json
 
@@ -46,6 +49,31 @@ def run(ctx):
     st = json.loads(p.stdout.strip().splitlines()[-1])
     acc, rejected, _ = vlib.validate_traces(ctx, "agwpe", "AgwpePropsTrace", "AgwpePropsTrace.cfg", traces, st["traces"])
     rows = vlib.read_ndjson(traces)
+    # mechanism trace validation: the library's own debug log of every inbound schedule against Agwpe.tla
+    mech_rows, mech_of = [], {}
+    for ti, row in enumerate(rows):
+        for ev in row["ev"]:
+            # bursts of more than 16 frames are left out: the log does not say which frame a drop hit, and the number of
+            # explanations TLC has to keep grows too fast
+            if ev["op"] == "Mech" and ev["log"] and sum(1 for e in ev["log"] if e["op"] == "Recv") <= 16:
+                mech_rows.append({"t": len(mech_rows) + 1, "ev": ev["log"], "scen": row["scen"]})
+                mech_of[ti + 1] = len(mech_rows)
+    mech_file = ctx.path("mech.ndjson")
+    vlib.write_ndjson(mech_file, mech_rows)
+    macc, mrej, _ = vlib.validate_traces(ctx, "agwpe", "AgwpeTrace", "AgwpeTrace.cfg", mech_file, len(mech_rows), name="mech")
+    unexplained = {mt: ml for (mt, ml) in mrej}
+    drops = sum(1 for r in mech_rows for e in r["ev"] if e["op"] == "Drop")
+    for mt, ml in sorted(unexplained.items()):
+        r = mech_rows[mt - 1]
+        e = r["ev"][ml - 1] if 0 < ml <= len(r["ev"]) else {}
+        if e.get("op") == "RRet":
+            # what the application read is not what the pipeline of Agwpe.tla, with exactly the logged drops, can deliver
+            vlib.report_violation(ctx, "C13/read/unexplained-by-logged-drops/%s" % r["scen"].get("pace"),
+                                  "Read returned frame %s at log position %d, which the demux pipeline of Agwpe.tla with the logged drops cannot deliver (loss without a "
+                                  "logged drop, reordering or duplicate); log %s" % (e.get("i"), ml, [(x["op"], x.get("i", "")) for x in r["ev"]][:80]),
+                                  {"scenario": r["scen"], "log": r["ev"], "position": ml})
+        else:
+            ctx.drift.append("SPEC-DRIFT: Agwpe.tla cannot follow the library's debug log of schedule %s at position %d (%s)" % (r["scen"], ml, e))
     for (t, l) in rejected:
         row = rows[t - 1]
         sc, ev = row["scen"], row["ev"][l - 1]
@@ -57,7 +85,7 @@ def run(ctx):
                 key = "C13/read/panic"
             elif ev["foreign"]:
                 key = "C13/read/foreign-delivered"
-            elif sc.get("pace") == "burst" and ev["class"] in ("truncated", "loss"):
+            elif sc.get("pace") == "burst" and ev["class"] in ("truncated", "loss") and (t not in mech_of or mech_of[t] not in unexplained):
                 # frames sent back to back: more than the loss-free envelope computed from Agwpe.tla (%d frame)
                 key = "C13/loss/drop-when-full/burst"
             else:
@@ -89,5 +117,8 @@ def run(ctx):
         "samples": [rows[0], rows[len(rows) // 2]["scen"]],
         "exhaustive": False,
         "loss_free_envelope_frames": env,
+        "mechanism_traces_validated": macc,
+        "mechanism_traces_total": len(mech_rows),
+        "logged_drops_explained": drops,
     }, ["TLC", "simulated TNC and AGWPE header lexer written from the AGWPE TCP/IP API description", "internal goroutine interleavings of the "
         "library are not controlled; paced schedules never ask the pipeline to hold two frames", "real time: 200 ms polls of the library"])
